@@ -98,8 +98,9 @@ func c09R3(r *Run, pf, mf *c09fn) {
 			continue
 		}
 		fti := ftis[0]
-		r.ExpectArg(fti, kp+"tag-key", 0, "(reflect.StructTag).Get(iface(reflect.Type).Field(*).Tag, \"tls\")")
-		r.ExpectArg(fti, kp+"tag-name", 1, "iface(reflect.Type).Field(*).Name")
+		// (a field selected on a temporary holding Type.Field(i) reads as the field of that call: c.D / c.expectArg)
+		c.expectArg(fti, kp+"tag-key", 0, "(reflect.StructTag).Get(iface(reflect.Type).Field(*).Tag, \"tls\")")
+		c.expectArg(fti, kp+"tag-name", 1, "iface(reflect.Type).Field(*).Name")
 		vp := c.fn.Params[0]
 		if c == mf {
 			vp = c.fn.Params[1]
@@ -547,7 +548,7 @@ func c09R6(r *Run, pf, mf *c09fn) {
 				as[i].Dom = []string{v}
 			}
 			key := kp + "variant[" + strings.Join(vs, ",") + "]"
-			_, err := r.D.Table(fn, body, stop, as, func(val map[string]string, reach *Reach, s Sigma) {
+			err := c.table(body, stop, as, func(val map[string]string, reach *Reach, s Sigma) {
 				r.Valuations++
 				rets := reachableReturns(fn, reach)
 				cont := false
@@ -606,13 +607,13 @@ func c09R6(r *Run, pf, mf *c09fn) {
 			if okA {
 				a := alloc[0].(*ssa.Call)
 				nw, isNew := a.Call.Args[1].(*ssa.Call)
-				okA = fieldOfV(a.Call.Args[0], vpv) != nil && isNew && glob("iface(reflect.Type).Elem(iface(reflect.Type).Field(*).Type)", r.D.D(nw.Call.Args[0]))
+				okA = fieldOfV(a.Call.Args[0], vpv) != nil && isNew && glob("iface(reflect.Type).Elem(iface(reflect.Type).Field(*).Type)", c.D(nw.Call.Args[0]))
 			}
 			r.Check(kp+"chosen-allocated", okA, r.Where(rec), "the chosen field v.Field(i) is set to a new value of the pointed-to type before decoding into it")
 			okZ := len(zero) == 1
 			if okZ {
 				z := zero[0].(*ssa.Call)
-				okZ = fieldOfV(z.Call.Args[0], vpv) != nil && glob("reflect.Zero(iface(reflect.Type).Field(*).Type)", r.D.D(z.Call.Args[1]))
+				okZ = fieldOfV(z.Call.Args[0], vpv) != nil && glob("reflect.Zero(iface(reflect.Type).Field(*).Type)", c.D(z.Call.Args[1]))
 			}
 			r.Check(kp+"unchosen-set-nil", okZ, r.Where(rec), "an unchosen variant v.Field(i) is set to the zero value (nil) of its own type")
 		}
@@ -624,18 +625,18 @@ func c09R6(r *Run, pf, mf *c09fn) {
 				return
 			}
 			nrec++
-			okK := glob("iface(reflect.Type).Field(*, it@*).Name", r.D.D(mu.Key))
+			okK := glob("iface(reflect.Type).Field(*, it@*).Name", c.D(mu.Key))
 			okV := false
 			if uc, isCall := mu.Value.(*ssa.Call); isCall && CalleeOf(uc) == "(reflect.Value).Uint" {
 				okV = fieldOfV(uc.Call.Args[0], vpv) != nil
 			}
 			guard := false
-			for _, b := range r.blocksTesting(fn, func(ci *CondInfo) bool {
+			for _, b := range c.blocksTesting(func(ci *CondInfo) bool {
 				return ci.Kind == "ord" && strings.Contains(ci.Key, "Kind(g:tls.enumType)") && glob("*iface(reflect.Type).Field(*).Type*", ci.Key)
 			}) {
 				guard = guard || (b.Succs[0] == mu.Block() && len(mu.Block().Preds) == 1 && rec.Block().Dominates(b))
 			}
-			r.Check(kp+"selector-recorded", okK && okV && guard, r.Where(mu), "after a field of Enum kind is coded, enums[field name] = its value: "+r.D.D(mu.Key)+" ← "+r.D.D(mu.Value))
+			r.Check(kp+"selector-recorded", okK && okV && guard, r.Where(mu), "after a field of Enum kind is coded, enums[field name] = its value: "+c.D(mu.Key)+" ← "+c.D(mu.Value))
 		})
 		r.Check(kp+"selector-recording", nrec == 1, r.FnPos(fn), fmt.Sprintf("%d writers of the selector-value map", nrec))
 		// after the loop: a selector none of whose variants was chosen is an error
